@@ -114,10 +114,99 @@ def validPhase (count : Nat) : Phase → Prop
   | .sendBody => True
   | _ => False
 
-/-! Not finished in scratch: `writePrelude_units` (one call of the code-shaped `writePrelude` emits
-    `(greedy ((headUnits r).drop p) cap).flatten`, moves the position by the number of lines taken, and is
-    `OutputOverflow` exactly when no line fits and the head is incomplete) and its fold over a list of
-    capacities (`C02_render`). The groundwork above checks. The attempt showed that the prototype's use of
-    `String` for the request line (`strBytes (method ++ " " ++ path ++ …)`) makes "every line is non-empty"
-    needlessly hard: the framework's model keeps method, version and path as `Bytes` and builds lines with
-    list append ending in `[13, 10]`. -/
+theorem requestLine_pos (r : AReq) : 0 < (requestLine r).length := by
+  unfold requestLine crlf; simp; omega
+
+theorem headerLine_pos (h : Hdr) (b : Bool) : 0 < (headerLine h b).length := by
+  unfold headerLine crlf; simp; omega
+
+theorem headerUnits_pos : ∀ (hs : List Hdr) (idx last : Nat), ∀ u ∈ headerUnits hs idx last, 0 < u.length := by
+  intro hs
+  induction hs with
+  | nil => intro _ _ u hu; simp [headerUnits] at hu
+  | cons h hs ih =>
+    intro idx last u hu
+    simp only [headerUnits, List.mem_cons] at hu
+    rcases hu with e | hu
+    · rw [e]; exact headerLine_pos _ _
+    · exact ih _ _ u hu
+
+theorem greedy_flatten_pos (l : List Bytes) (s : Nat) (hpos : ∀ u ∈ l, 0 < u.length) (hne : greedy l s ≠ []) :
+    0 < (greedy l s).flatten.length := by
+  cases l with
+  | nil => simp [greedy] at hne
+  | cons u us =>
+    simp only [greedy] at hne ⊢
+    split
+    · have := hpos u (by simp)
+      simp; omega
+    · rename_i h; simp [h] at hne
+
+theorem W_ext (a b : W) (h1 : a.out = b.out) (h2 : a.cap = b.cap) : a = b := by
+  cases a; cases b; simp_all
+
+/-- closed form of one call in the header phase -/
+theorem wp_headers (c : CallSt) (idx cap : Nat) (hp : c.phase = .sendHeaders idx) (hh : c.req.headers ≠ []) :
+    writePrelude c { out := [], cap := cap } =
+      ({ c with phase := if idx + (greedy (headerUnits (c.req.headers.drop idx) idx (c.req.headers.length - 1)) cap).length == c.req.headers.length
+                         then .sendBody else .sendHeaders (idx + (greedy (headerUnits (c.req.headers.drop idx) idx (c.req.headers.length - 1)) cap).length) },
+       { out := (greedy (headerUnits (c.req.headers.drop idx) idx (c.req.headers.length - 1)) cap).flatten, cap := cap },
+       if (greedy (headerUnits (c.req.headers.drop idx) idx (c.req.headers.length - 1)) cap).flatten.length > 0 ||
+          (idx + (greedy (headerUnits (c.req.headers.drop idx) idx (c.req.headers.length - 1)) cap).length == c.req.headers.length)
+       then .ok () else .error (.api .outputOverflow)) := by
+  have hcount : c.req.headers.length ≠ 0 := fun e => hh (List.eq_nil_of_length_eq_zero e)
+  obtain ⟨h1, h2, h3⟩ := writeHeaders_greedy (c.req.headers.drop idx) idx (c.req.headers.length - 1) { out := [], cap := cap }
+  have hav : ({ out := [], cap := cap } : W).available = cap := by simp [W.available]
+  rw [hav] at h1 h3
+  have hw : (writeHeaders (c.req.headers.drop idx) idx (c.req.headers.length - 1) { out := [], cap := cap }).2 =
+      { out := (greedy (headerUnits (c.req.headers.drop idx) idx (c.req.headers.length - 1)) cap).flatten, cap := cap } :=
+    W_ext _ _ (by rw [h1]; simp) (by rw [h2])
+  unfold writePrelude
+  simp only [hp, Bool.not_true, Bool.false_eq_true, if_false, hcount, List.length_nil, Nat.sub_zero]
+  rw [show writeHeaders (c.req.headers.drop idx) idx (c.req.headers.length - 1) { out := [], cap := cap } =
+      ((writeHeaders (c.req.headers.drop idx) idx (c.req.headers.length - 1) { out := [], cap := cap }).1,
+       (writeHeaders (c.req.headers.drop idx) idx (c.req.headers.length - 1) { out := [], cap := cap }).2) from rfl]
+  simp only [hw, h3]
+  congr 2
+  by_cases he : idx + (greedy (headerUnits (c.req.headers.drop idx) idx (c.req.headers.length - 1)) cap).length = c.req.headers.length
+  · simp [he]
+  · simp [he]
+
+/-- closed form of one call in the request-line phase -/
+theorem wp_line (c : CallSt) (cap : Nat) (hp : c.phase = .sendLine) (hh : c.req.headers ≠ []) :
+    writePrelude c { out := [], cap := cap } =
+      if (requestLine c.req).length ≤ cap then
+        ({ c with phase := if (greedy (headerUnits c.req.headers 0 (c.req.headers.length - 1)) (cap - (requestLine c.req).length)).length == c.req.headers.length
+                           then .sendBody else .sendHeaders (greedy (headerUnits c.req.headers 0 (c.req.headers.length - 1)) (cap - (requestLine c.req).length)).length },
+         { out := requestLine c.req ++ (greedy (headerUnits c.req.headers 0 (c.req.headers.length - 1)) (cap - (requestLine c.req).length)).flatten, cap := cap },
+         .ok ())
+      else (c, { out := [], cap := cap }, .error (.api .outputOverflow)) := by
+  have hcount : c.req.headers.length ≠ 0 := fun e => hh (List.eq_nil_of_length_eq_zero e)
+  by_cases hfit : (requestLine c.req).length ≤ cap
+  · obtain ⟨h1, h2, h3⟩ := writeHeaders_greedy c.req.headers 0 (c.req.headers.length - 1) { out := requestLine c.req, cap := cap }
+    have hav : ({ out := requestLine c.req, cap := cap } : W).available = cap - (requestLine c.req).length := by simp [W.available]
+    rw [hav] at h1 h3
+    have hw : (writeHeaders c.req.headers 0 (c.req.headers.length - 1) { out := requestLine c.req, cap := cap }).2 =
+        { out := requestLine c.req ++ (greedy (headerUnits c.req.headers 0 (c.req.headers.length - 1)) (cap - (requestLine c.req).length)).flatten, cap := cap } :=
+      W_ext _ _ (by rw [h1]) (by rw [h2])
+    have hrl := requestLine_pos c.req
+    unfold writePrelude
+    simp only [hp, W.tryWrite, W.available, List.length_nil, Nat.sub_zero, hfit, if_true, List.nil_append,
+      Bool.not_true, Bool.false_eq_true, if_false, hcount, List.drop_zero]
+    rw [show writeHeaders c.req.headers 0 (c.req.headers.length - 1) { out := requestLine c.req, cap := cap } =
+        ((writeHeaders c.req.headers 0 (c.req.headers.length - 1) { out := requestLine c.req, cap := cap }).1,
+         (writeHeaders c.req.headers 0 (c.req.headers.length - 1) { out := requestLine c.req, cap := cap }).2) from rfl]
+    simp only [hw, h3, Nat.zero_add]
+    congr 2
+    have : (requestLine c.req ++ (greedy (headerUnits c.req.headers 0 (c.req.headers.length - 1)) (cap - (requestLine c.req).length)).flatten).length > 0 := by
+      simp; omega
+    simp [this]
+    intro he; rw [he] at hrl; simp at hrl
+  · unfold writePrelude
+    simp [hp, W.tryWrite, W.available, hfit]
+
+/-- closed form once the head is complete -/
+theorem wp_body (c : CallSt) (cap : Nat) (hp : c.phase = .sendBody) :
+    writePrelude c { out := [], cap := cap } = (c, { out := [], cap := cap }, .ok ()) := by
+  unfold writePrelude
+  simp [hp]
